@@ -358,7 +358,9 @@ func (c *Ctx) errSwallow(rule string, funcs []*FuncInfo, clause string) (sites, 
 // NO-BREAK: a function whose loops must look at every element (the candidates of a contraction, the
 // branches starting the flood fills, the names read from a list file) has no `break` that leaves
 // one of its loops: a `break` written where `continue` was meant silently drops everything after
-// the first skipped element. Labelled breaks and breaks of a switch/select are not loop exits.
+// the first skipped element. Labelled breaks and breaks of a switch/select are not loop exits; a
+// break under a test of an error value (end of input) and the breaks of a `for { }` loop without a
+// condition of its own (they are its condition) are the loop's regular end.
 func (c *Ctx) noBreakLoops(rule string, fi *FuncInfo, clause, what string) {
 	key := fi.Name() + "/every-element"
 	nLoops := 0
@@ -373,11 +375,29 @@ func (c *Ctx) noBreakLoops(rule string, fi *FuncInfo, clause, what string) {
 			if x.Tok != token.BREAK || x.Label != nil || bad != nil {
 				return true
 			}
+			info := fi.Pkg.TypesInfo
+			onError := false // `if err != nil { break }`: the input is exhausted or unreadable
 			for i := len(stack) - 1; i >= 0; i-- {
-				switch stack[i].(type) {
+				switch l := stack[i].(type) {
 				case *ast.SwitchStmt, *ast.TypeSwitchStmt, *ast.SelectStmt:
 					return true // leaves the switch, not a loop
-				case *ast.ForStmt, *ast.RangeStmt:
+				case *ast.IfStmt:
+					if be, ok := unparen(l.Cond).(*ast.BinaryExpr); ok && (be.Op == token.NEQ || be.Op == token.EQL) {
+						if t := info.TypeOf(be.X); t != nil && isErrorType(t) {
+							onError = true
+						}
+					}
+				case *ast.ForStmt:
+					// a loop without a condition of its own ends by its breaks: they are its condition
+					if l.Cond == nil || onError {
+						return true
+					}
+					bad = x
+					return true
+				case *ast.RangeStmt:
+					if onError {
+						return true
+					}
 					bad = x
 					return true
 				}
@@ -696,11 +716,34 @@ func (c *Ctx) cmdApplies(rule string, file string, ops []string, clause string) 
 				return true
 			}
 			fn := calleeOf(info, call)
-			if fn == nil || (fn.Name() != "WriteString" && fn.Name() != "Write" && !strings.HasPrefix(fn.Name(), "Fprint") && !strings.HasPrefix(fn.Name(), "Print")) {
+			if fn == nil {
+				return true
+			}
+			// a helper of the repository that takes a tree and writes its Newick text
+			// (`writeNewickLine(f, t.Tree)`) is a write of that tree
+			viaHelper := false
+			if inRepo(fn) && fn.Name() != "Newick" {
+				if gi := c.FuncOfObj(fn); gi != nil && gi.Decl.Body != nil {
+					takesTree := false
+					for _, a := range call.Args {
+						if t := info.TypeOf(a); t != nil && isTreePtr(t) {
+							takesTree = true
+						}
+					}
+					if takesTree {
+						for _, cl := range callsIn(gi.Decl.Body, true) {
+							if g := calleeOf(gi.Pkg.TypesInfo, cl); g != nil && inRepo(g) && g.Name() == "Newick" {
+								viaHelper = true
+							}
+						}
+					}
+				}
+			}
+			if !viaHelper && fn.Name() != "WriteString" && fn.Name() != "Write" && !strings.HasPrefix(fn.Name(), "Fprint") && !strings.HasPrefix(fn.Name(), "Print") {
 				return true
 			}
 			// writes the Newick text of a tree
-			writesTree := false
+			writesTree := viaHelper
 			for _, a := range call.Args {
 				ast.Inspect(a, func(m ast.Node) bool {
 					if cl, ok := m.(*ast.CallExpr); ok {
@@ -865,4 +908,635 @@ func (c *Ctx) adjPairs(rule string, funcs []*FuncInfo, clause string) (loops, vi
 		})
 	}
 	return
+}
+
+// ---------------------------------------------------------------------------------------------
+// Deeper forms for tree.Compare (found by running gotree's own tests on the single-edit variants no
+// rule fired on): the three counters start at 0 and are changed only by ++, and the look-up of a
+// compared branch in the reference index happens for every branch that is not a tip branch.
+func (c *Ctx) compareDeep(fi *FuncInfo, fl *ast.FuncLit) {
+	info := fi.Pkg.TypesInfo
+	clause := "exactly the number of splits found only in the reference, in both, and only in the compared tree"
+	// counters: integer variables incremented with ++ in the function
+	counters := map[types.Object]bool{}
+	ast.Inspect(fi.Decl.Body, func(n ast.Node) bool {
+		if inc, ok := n.(*ast.IncDecStmt); ok && inc.Tok == token.INC {
+			if o := identObj(info, inc.X); o != nil && isInteger(o.Type()) {
+				counters[o] = true
+			}
+		}
+		return true
+	})
+	var names []string
+	byName := map[string]types.Object{}
+	for o := range counters {
+		names = append(names, o.Name())
+		byName[o.Name()] = o
+	}
+	sortStrings(names)
+	for _, nm := range names {
+		o := byName[nm]
+		inits, other := 0, 0
+		zero := false
+		ast.Inspect(fi.Decl.Body, func(n ast.Node) bool {
+			switch s := n.(type) {
+			case *ast.AssignStmt:
+				for i, l := range s.Lhs {
+					if identObj(info, l) != o {
+						continue
+					}
+					if s.Tok == token.DEFINE && len(s.Lhs) == len(s.Rhs) {
+						inits++
+						if tv, ok := info.Types[s.Rhs[i]]; ok && tv.Value != nil && tv.Value.String() == "0" {
+							zero = true
+						}
+					} else {
+						other++
+					}
+				}
+			case *ast.ValueSpec:
+				for i, id := range s.Names {
+					if info.Defs[id] == o {
+						inits++
+						if len(s.Values) == 0 {
+							zero = true
+						} else if i < len(s.Values) {
+							if tv, ok := info.Types[s.Values[i]]; ok && tv.Value != nil && tv.Value.String() == "0" {
+								zero = true
+							}
+						}
+					}
+				}
+			}
+			return true
+		})
+		// loop counters of `for i := 0; ...; i++` are not counts of branches
+		if fs := enclosingForInit(fi.Decl.Body, o, info); fs {
+			continue
+		}
+		c.Check(inits == 1 && zero && other == 0, "LF", "tree.Compare/counter-"+nm+"-from-0", o.Pos(), "starts at 0 and is changed only by ++", fmt.Sprintf("the counter `%s` does not start at 0 (or is assigned elsewhere): every count reported is off by that amount", nm)).Clause = clause
+	}
+	// look-up guard
+	for _, call := range callsIn(fl.Body, false) {
+		g := calleeOf(info, call)
+		if g == nil || g.Name() != "Value" || !inRepo(g) || len(call.Args) != 1 {
+			continue
+		}
+		eObj := identObj(info, call.Args[0])
+		if eObj == nil {
+			continue
+		}
+		conds, okc := c.pathConds(info, fl.Body, call, true)
+		if !okc {
+			c.Undecided("GF", "tree.Compare/look-up-guard", call.Pos(), "guard shape not understood")
+			continue
+		}
+		o := &canonOpts{subst: map[types.Object]string{eObj: "$E"}}
+		var rel []cond
+		for _, cd := range conds {
+			if cd.Expr != nil && strings.Contains(c.canon(info, cd.Expr, o), "$E") {
+				rel = append(rel, cd)
+			}
+		}
+		code := c.inlineTip(c.condsToBexpr(info, rel, o))
+		notTip := bNot(bCmp("len($E.right.neigh)", token.EQL, "1"))
+		// accepted: looked up always, or exactly for the branches that are not tip branches
+		good := len(rel) == 0
+		if !good {
+			if eq, _, _, err := gfEquiv(code, notTip); err == nil && eq {
+				good = true
+			}
+		}
+		c.Check(good, "GF", "tree.Compare/look-up-guard", call.Pos(), "every branch that is not a tip branch is looked up in the reference index", "the compared branch is looked up in the reference index under "+code.String()+": inner branches that are not looked up count as found").Clause = clause
+	}
+}
+
+func sortStrings(xs []string) {
+	for i := 1; i < len(xs); i++ {
+		for j := i; j > 0 && xs[j] < xs[j-1]; j-- {
+			xs[j], xs[j-1] = xs[j-1], xs[j]
+		}
+	}
+}
+
+// enclosingForInit: o is the counter of a `for o := ...; ...; o++` loop.
+func enclosingForInit(body ast.Node, o types.Object, info *types.Info) bool {
+	found := false
+	ast.Inspect(body, func(n ast.Node) bool {
+		if fs, ok := n.(*ast.ForStmt); ok {
+			if as, ok := fs.Init.(*ast.AssignStmt); ok {
+				for _, l := range as.Lhs {
+					if identObj(info, l) == o {
+						found = true
+					}
+				}
+			}
+		}
+		return true
+	})
+	return found
+}
+
+// ---------------------------------------------------------------------------------------------
+// Forms of tree.CompareWeighted: with weights the reported terms are exactly the length differences
+// of shared splits and the lengths of unshared ones.
+//   - the record's Common / Tree2 / Tree1 fields are three slices filled only by append;
+//   - Common gets (length recorded in the reference index for the compared branch) - (length of the
+//     compared branch), exactly when the look-up of the compared branch in the reference index
+//     succeeds; Tree2 gets the compared branch's length exactly when it fails;
+//   - Tree1 gets the reference branch's length exactly when its look-up in the index of the compared
+//     tree fails;
+//   - both indexes are filled with every branch of their tree and that branch's length.
+func (c *Ctx) compareWeightedTerms(fi *FuncInfo, fl *ast.FuncLit, fields map[string]ast.Expr) {
+	info := fi.Pkg.TypesInfo
+	name := "tree.CompareWeighted"
+	clause := "with weights the reported terms are exactly the length differences of shared splits and the lengths of unshared ones"
+	slot := map[types.Object]string{}
+	for _, f := range []string{"Tree1", "Tree2", "Common"} {
+		if e, ok := fields[f]; ok {
+			if o := identObj(info, e); o != nil {
+				slot[o] = f
+			}
+		}
+	}
+	if len(slot) != 3 {
+		c.Undecided("LF", name+"/record", fl.Pos(), "the record's Tree1/Tree2/Common fields are not three distinct variables")
+		return
+	}
+	lo := c.localExpansionsWith(info, fi.Decl.Body, nil)
+	// indexes: variable -> canonical text of the branch list it was filled from
+	idxOf := map[types.Object]string{}
+	var refIdx types.Object
+	for _, call := range callsIn(fi.Decl.Body, true) {
+		if !isRepoFunc(calleeOf(info, call), "tree", "EdgeIndex", "PutEdgeValue") || len(call.Args) != 3 {
+			continue
+		}
+		sel, _ := unparen(call.Fun).(*ast.SelectorExpr)
+		if sel == nil {
+			continue
+		}
+		ix := identObj(info, sel.X)
+		// the branch stored is the current element of the enclosing loop (range value, x[i], or a
+		// local naming one of these)
+		src, isElem := c.loopElement(info, fi.Decl.Body, call, call.Args[0], lo)
+		if !isElem {
+			c.Violation("LF", name+"/index-fill", call.Pos(), "PutEdgeValue does not store the current element of a loop over a branch list").Clause = clause
+			continue
+		}
+		key := name + "/index(" + src + ")"
+		okFill := c.canon(info, call.Args[2], lo) == c.canon(info, call.Args[0], lo)+".length"
+		// unconditional, at the top level of a loop over the whole list
+		if conds, okc := c.pathConds(info, fi.Decl.Body, call, true); !okc || len(conds) != 0 {
+			okFill = false
+		}
+		c.Check(okFill && ix != nil, "LF", key, call.Pos(), "filled with every branch of "+src+" and its length", "the index is not filled with (branch, branch length) for every branch of "+src+": the lengths compared later are not those of the splits").Clause = clause
+		if ix != nil {
+			idxOf[ix] = src
+			// the reference side is indexed once, before the workers start; the compared side
+			// inside the worker, per tree
+			if !nodeContains(fl, call.Pos()) {
+				refIdx = ix
+			}
+		}
+	}
+	// an index built by a helper: `ix := newIndex(list)` where the helper fills the index it returns
+	// from its parameter with the same unconditional loop
+	ast.Inspect(fi.Decl.Body, func(n ast.Node) bool {
+		as, ok := n.(*ast.AssignStmt)
+		if !ok || len(as.Lhs) != 1 || len(as.Rhs) != 1 {
+			return true
+		}
+		call, ok := unparen(as.Rhs[0]).(*ast.CallExpr)
+		if !ok || len(call.Args) < 1 {
+			return true
+		}
+		g := calleeOf(info, call)
+		gi := c.FuncOfObj(g)
+		if g == nil || gi == nil || gi.Decl.Body == nil || g.Exported() || g.Pkg() != fi.Obj.Pkg() {
+			return true
+		}
+		ginfo := gi.Pkg.TypesInfo
+		argIdx := -1
+		var filled types.Object
+		okFill := false
+		ast.Inspect(gi.Decl.Body, func(m ast.Node) bool {
+			rs, ok := m.(*ast.RangeStmt)
+			if !ok || rs.Value == nil {
+				return true
+			}
+			pi := -1
+			for k := range call.Args {
+				if p := paramObj(ginfo, gi.Decl, k); p != nil && identObj(ginfo, rs.X) == p {
+					pi = k
+				}
+			}
+			if pi < 0 {
+				return true
+			}
+			ev := identObj(ginfo, rs.Value)
+			for _, st := range rs.Body.List {
+				es, ok := st.(*ast.ExprStmt)
+				if !ok {
+					continue
+				}
+				pc, ok := es.X.(*ast.CallExpr)
+				if !ok || !isRepoFunc(calleeOf(ginfo, pc), "tree", "EdgeIndex", "PutEdgeValue") || len(pc.Args) != 3 {
+					continue
+				}
+				if sel, ok := unparen(pc.Fun).(*ast.SelectorExpr); ok {
+					filled = identObj(ginfo, sel.X)
+				}
+				argIdx = pi
+				okFill = identObj(ginfo, pc.Args[0]) == ev && c.canon(ginfo, pc.Args[2], &canonOpts{subst: map[types.Object]string{ev: "$E"}}) == "$E.length"
+			}
+			return true
+		})
+		if argIdx < 0 || filled == nil {
+			return true
+		}
+		// the helper returns the index it filled
+		returnsIt := false
+		ast.Inspect(gi.Decl.Body, func(m ast.Node) bool {
+			if r, ok := m.(*ast.ReturnStmt); ok && len(r.Results) == 1 && identObj(ginfo, r.Results[0]) == filled {
+				returnsIt = true
+			}
+			return true
+		})
+		ix := identObj(info, as.Lhs[0])
+		if ix == nil || !returnsIt {
+			return true
+		}
+		src := c.canon(info, call.Args[argIdx], lo)
+		c.Check(okFill, "LF", name+"/index("+src+")", call.Pos(), "built by "+g.Name()+" from every branch of "+src+" and its length", "the index built by "+g.Name()+" is not filled with (branch, branch length) for every branch of its argument").Clause = clause
+		idxOf[ix] = src
+		if !nodeContains(fl, call.Pos()) {
+			refIdx = ix
+		}
+		return true
+	})
+	if len(idxOf) != 2 || refIdx == nil {
+		c.Undecided("LF", name+"/indexes", fi.Decl.Pos(), fmt.Sprintf("expected two split indexes filled by PutEdgeValue loops (the reference one outside the worker), found %d", len(idxOf)))
+		return
+	}
+	// appends: in the worker itself, and in the unexported helpers it hands an index to (their
+	// parameters and results stand for the caller's arguments and assigned variables)
+	seen := map[string]int{}
+	var walkUnit func(ubody *ast.BlockStmt, slotOfVar func(types.Object) (string, bool), idxOfVar func(types.Object) types.Object, listOf func(ast.Expr) string)
+	walkUnit = func(ubody *ast.BlockStmt, slotOfVar func(types.Object) (string, bool), idxOfVar func(types.Object) types.Object, listOf func(ast.Expr) string) {
+		walkStack(ubody, func(n ast.Node, stack []ast.Node) bool {
+			as, ok := n.(*ast.AssignStmt)
+			if !ok || len(as.Lhs) != 1 || len(as.Rhs) != 1 {
+				return true
+			}
+			v := identObj(info, as.Lhs[0])
+			f, isSlot := slotOfVar(v)
+			if !isSlot {
+				return true
+			}
+			call, ok := unparen(as.Rhs[0]).(*ast.CallExpr)
+			id, _ := func() (*ast.Ident, bool) {
+				if !ok {
+					return nil, false
+				}
+				i, k := unparen(call.Fun).(*ast.Ident)
+				return i, k
+			}()
+			if id == nil || id.Name != "append" || len(call.Args) != 2 || identObj(info, call.Args[0]) != v {
+				c.Violation("LF", name+"/"+f+"-only-appended", as.Pos(), "the slice reported as "+f+" is assigned otherwise than by appending one term to itself").Clause = clause
+				return true
+			}
+			seen[f]++
+			key := fmt.Sprintf("%s/%s-term#%d", name, f, seen[f])
+			// the loop element
+			var loop *ast.RangeStmt
+			for _, a := range stack {
+				if rs, ok := a.(*ast.RangeStmt); ok && rs.Value != nil {
+					loop = rs
+				}
+			}
+			if loop == nil {
+				c.Undecided("LF", key, as.Pos(), "term appended outside a loop over branches")
+				return true
+			}
+			ev := identObj(info, loop.Value)
+			listSrc := listOf(loop.X)
+			// the look-up that decides: `x, ok := IDX.Value(ev)` in the loop
+			var okObj, hit, idx types.Object
+			ast.Inspect(loop.Body, func(m ast.Node) bool {
+				la, ok := m.(*ast.AssignStmt)
+				if !ok || len(la.Lhs) != 2 || len(la.Rhs) != 1 {
+					return true
+				}
+				lc, ok := unparen(la.Rhs[0]).(*ast.CallExpr)
+				if !ok || !isRepoFunc(calleeOf(info, lc), "tree", "EdgeIndex", "Value") || len(lc.Args) != 1 || identObj(info, lc.Args[0]) != ev {
+					return true
+				}
+				if sel, ok := unparen(lc.Fun).(*ast.SelectorExpr); ok {
+					idx = idxOfVar(identObj(info, sel.X))
+				}
+				hit, okObj = identObj(info, la.Lhs[0]), identObj(info, la.Lhs[1])
+				return true
+			})
+			if okObj == nil || idx == nil {
+				c.Undecided("LF", key, as.Pos(), "no look-up of the loop's branch in a split index found in this loop")
+				return true
+			}
+			conds, okc := c.pathConds(info, ubody, as, true)
+			found, polarity := false, false
+			if okc {
+				for _, cd := range conds {
+					if cd.Expr != nil && identObj(info, cd.Expr) == okObj {
+						found, polarity = true, !cd.Neg
+					}
+				}
+			}
+			so := &canonOpts{subst: map[types.Object]string{ev: "$E"}}
+			if hit != nil {
+				so.subst[hit] = "$HIT"
+			}
+			for k, v2 := range c.localExpansionsWith(info, ubody, so).subst {
+				if _, has := so.subst[k]; !has {
+					so.subst[k] = v2
+				}
+			}
+			env := &lfEnv{c: c, info: info, o: so, inits: map[types.Object]ast.Expr{}, vals: map[types.Object]*poly{}}
+			term, err := env.fold(call.Args[1])
+			termS := "?"
+			if err == nil {
+				termS = term.String()
+			}
+			var wantList, wantIdx, wantTerm string
+			wantPol := false
+			switch f {
+			case "Common":
+				wantPol, wantTerm = true, "$HIT.Len - $E.length"
+			case "Tree2":
+				wantTerm = "$E.length"
+			case "Tree1":
+				wantTerm = "$E.length"
+			}
+			// which list / which index: the compared side for Common and Tree2, the reference side for Tree1
+			refList := idxOf[refIdx]
+			if f == "Tree1" {
+				wantList = refList
+				for ix, src := range idxOf {
+					if src != refList {
+						wantIdx = ix.Name()
+					}
+				}
+			} else {
+				for ix, src := range idxOf {
+					if src == refList {
+						wantIdx = ix.Name()
+					} else {
+						wantList = src
+					}
+				}
+			}
+			termOK := err == nil && samePolyText(termS, wantTerm)
+			// the comparison runs for trees without error: no condition on the way requires an error
+			// value to be non-nil
+			underError := ""
+			if full, okf := c.pathConds(info, ubody, as, false); okf {
+				for _, cd := range full {
+					if cd.Expr == nil {
+						continue
+					}
+					if be, ok := unparen(cd.Expr).(*ast.BinaryExpr); ok && (be.Op == token.NEQ || be.Op == token.EQL) && isNilIdent(info, be.Y) {
+						if t := info.TypeOf(be.X); t != nil && isErrorType(t) && ((be.Op == token.NEQ) != cd.Neg) {
+							underError = c.src(cd.Expr)
+						}
+					}
+				}
+			}
+			if underError != "" {
+				c.Violation("GF", key+"/reached-without-error", as.Pos(), "this term is only computed on a path that requires an error (`"+underError+"` taken as "+"true): for trees that read and index without error nothing is compared").Clause = clause
+			}
+			good := found && polarity == wantPol && termOK && listSrc == wantList && idx.Name() == wantIdx
+			c.Check(good, "LF", key, as.Pos(), f+" gets "+termS+" for a branch of "+listSrc+" looked up in "+idx.Name(),
+				fmt.Sprintf("%s gets `%s` for a branch of %s, looked up in %s, when the look-up %s; expected `%s` for a branch of %s, looked up in %s, when the look-up %s", f, termS, listSrc, idx.Name(), map[bool]string{true: "succeeds", false: "fails"}[polarity], wantTerm, wantList, wantIdx, map[bool]string{true: "succeeds", false: "fails"}[wantPol])).Clause = clause
+			return true
+		})
+	}
+	ident := func(o types.Object) types.Object { return o }
+	walkUnit(fl.Body, func(v types.Object) (string, bool) { f, ok := slot[v]; return f, ok }, ident, func(e ast.Expr) string { return c.canon(info, e, lo) })
+	ast.Inspect(fl.Body, func(n ast.Node) bool {
+		as, ok := n.(*ast.AssignStmt)
+		if !ok || len(as.Rhs) != 1 {
+			return true
+		}
+		call, ok := unparen(as.Rhs[0]).(*ast.CallExpr)
+		if !ok {
+			return true
+		}
+		g := calleeOf(info, call)
+		gi := c.FuncOfObj(g)
+		if g == nil || gi == nil || gi.Decl.Body == nil || g.Exported() || g.Pkg() != fi.Obj.Pkg() {
+			return true
+		}
+		takesIdx := false
+		for _, a := range call.Args {
+			if o := identObj(info, a); o != nil {
+				if _, isIdx := idxOf[o]; isIdx {
+					takesIdx = true
+				}
+			}
+		}
+		if !takesIdx {
+			return true
+		}
+		ginfo := gi.Pkg.TypesInfo
+		// result position of a helper variable: named result, or the identifier every return hands
+		// back at that position
+		resPos := map[types.Object]int{}
+		k := 0
+		if gi.Decl.Type.Results != nil {
+			for _, f := range gi.Decl.Type.Results.List {
+				if len(f.Names) == 0 {
+					k++
+				}
+				for _, nm := range f.Names {
+					resPos[ginfo.Defs[nm]] = k
+					k++
+				}
+			}
+		}
+		ast.Inspect(gi.Decl.Body, func(m ast.Node) bool {
+			if r, ok := m.(*ast.ReturnStmt); ok {
+				for i, e := range r.Results {
+					if o := identObj(ginfo, e); o != nil {
+						if _, has := resPos[o]; !has {
+							resPos[o] = i
+						}
+					}
+				}
+			}
+			return true
+		})
+		paramArg := func(o types.Object) ast.Expr {
+			for i := range call.Args {
+				if paramObj(ginfo, gi.Decl, i) == o {
+					return call.Args[i]
+				}
+			}
+			return nil
+		}
+		walkUnit(gi.Decl.Body,
+			func(v types.Object) (string, bool) {
+				if r, ok := resPos[v]; ok && r < len(as.Lhs) {
+					f, ok2 := slot[identObj(info, as.Lhs[r])]
+					return f, ok2
+				}
+				return "", false
+			},
+			func(o types.Object) types.Object {
+				if a := paramArg(o); a != nil {
+					return identObj(info, a)
+				}
+				return o
+			},
+			func(e ast.Expr) string {
+				if o := identObj(ginfo, e); o != nil {
+					if a := paramArg(o); a != nil {
+						return c.canon(info, a, lo)
+					}
+				}
+				return c.canon(ginfo, e, nil)
+			})
+		return true
+	})
+	for _, f := range []string{"Tree1", "Tree2", "Common"} {
+		c.Require(fmt.Sprintf("LF/%s/%s-term#1", name, f))
+	}
+	// the verdict: the variable sent as Sametree is set to false in the worker only where a look-up
+	// has failed or where the two lengths of a shared split differ
+	if sv := identObj(info, fields["Sametree"]); sv != nil {
+		nset := 0
+		walkStack(fl.Body, func(n ast.Node, stack []ast.Node) bool {
+			as, ok := n.(*ast.AssignStmt)
+			if !ok || len(as.Lhs) != 1 || len(as.Rhs) != 1 || identObj(info, as.Lhs[0]) != sv {
+				return true
+			}
+			tv, isC := info.Types[as.Rhs[0]]
+			if !isC || tv.Value == nil || tv.Value.String() != "false" {
+				return true
+			}
+			var loop *ast.RangeStmt
+			for _, a := range stack {
+				if rs, ok := a.(*ast.RangeStmt); ok && rs.Value != nil {
+					loop = rs
+				}
+			}
+			if loop == nil {
+				return true // the initial value
+			}
+			nset++
+			key := fmt.Sprintf("%s/verdict-false#%d", name, nset)
+			ev := identObj(info, loop.Value)
+			var okObj, hit types.Object
+			ast.Inspect(loop.Body, func(m ast.Node) bool {
+				if la, ok := m.(*ast.AssignStmt); ok && len(la.Lhs) == 2 && len(la.Rhs) == 1 {
+					if lc, ok := unparen(la.Rhs[0]).(*ast.CallExpr); ok && isRepoFunc(calleeOf(info, lc), "tree", "EdgeIndex", "Value") {
+						hit, okObj = identObj(info, la.Lhs[0]), identObj(info, la.Lhs[1])
+					}
+				}
+				return true
+			})
+			so := &canonOpts{subst: map[types.Object]string{ev: "$E"}}
+			if hit != nil {
+				so.subst[hit] = "$HIT"
+			}
+			for k, v2 := range c.localExpansionsWith(info, fl.Body, so).subst {
+				if _, has := so.subst[k]; !has {
+					so.subst[k] = v2
+				}
+			}
+			good := false
+			if conds, okc := c.pathConds(info, fl.Body, as, true); okc {
+				for _, cd := range conds {
+					if cd.Expr == nil {
+						continue
+					}
+					if okObj != nil && identObj(info, cd.Expr) == okObj && cd.Neg {
+						good = true // the look-up failed
+					}
+					if be, ok := unparen(cd.Expr).(*ast.BinaryExpr); ok {
+						l, r := c.canon(info, be.X, so), c.canon(info, be.Y, so)
+						differ := (be.Op == token.NEQ && !cd.Neg) || (be.Op == token.EQL && cd.Neg)
+						if differ && ((l == "$HIT.Len" && r == "$E.length") || (l == "$E.length" && r == "$HIT.Len")) {
+							good = true // shared split, different lengths
+						}
+					}
+				}
+			}
+			c.Check(good, "GF", key, as.Pos(), "the verdict falls where a look-up failed or the lengths of a shared split differ", "the weighted comparison gives up the 'identical' verdict somewhere else than where a look-up failed or where the two lengths of a shared split differ").Clause = "reports the trees identical exactly when both 'only' counts are zero"
+			return true
+		})
+	}
+}
+
+// samePolyText compares two polynomial texts up to the order of their terms.
+func samePolyText(a, b string) bool {
+	norm := func(s string) string {
+		s = strings.ReplaceAll(s, " - ", " + -")
+		parts := strings.Split(s, " + ")
+		sortStrings(parts)
+		return strings.Join(parts, " + ")
+	}
+	return norm(a) == norm(b)
+}
+
+// compareEntryGuards: in the launcher part of Compare / CompareWeighted (outside the worker) every
+// error return sits under a positive test that the reference tree is nil or that an error value is
+// non-nil, and the final return hands back the channel with a nil error.
+func (c *Ctx) compareEntryGuards(fi *FuncInfo, fl *ast.FuncLit, name string) {
+	info := fi.Pkg.TypesInfo
+	clause := "trees on different taxa are rejected with an error"
+	n := 0
+	ast.Inspect(fi.Decl.Body, func(m ast.Node) bool {
+		if m == ast.Node(fl) {
+			return false
+		}
+		if _, ok := m.(*ast.FuncLit); ok {
+			return false
+		}
+		r, ok := m.(*ast.ReturnStmt)
+		if !ok || len(r.Results) != 2 {
+			return true
+		}
+		n++
+		key := fmt.Sprintf("tree.%s/entry-return#%d", name, n)
+		conds, okc := c.pathConds(info, fi.Decl.Body, r, false)
+		if !okc {
+			c.Undecided("GF", key, r.Pos(), "guard shape not understood")
+			return true
+		}
+		if isNilIdent(info, r.Results[1]) {
+			// success: not under any failure test taken as true
+			bad := ""
+			for _, cd := range conds {
+				if cd.Expr != nil && !cd.Neg {
+					bad = c.src(cd.Expr)
+				}
+			}
+			c.Check(bad == "" && !isNilIdent(info, r.Results[0]), "GF", key, r.Pos(), "the result channel is returned when no entry test failed", "the successful return of "+name+" sits under `"+bad+"` (or returns no channel)").Clause = clause
+			return true
+		}
+		good := false
+		for _, cd := range conds {
+			if cd.Expr == nil || cd.Neg {
+				continue
+			}
+			if o, nonNil, isNil := nilTest(info, cd.Expr); isNil && o != nil {
+				if isErrorType(o.Type()) && nonNil {
+					good = true
+				}
+				if isTreePtr(o.Type()) && !nonNil {
+					good = true
+				}
+			}
+		}
+		c.Check(good && isNilIdent(info, r.Results[0]), "GF", key, r.Pos(), "error returned under a failed entry test", "an error return of "+name+" is not under a positive test `reference tree == nil` / `err != nil`: the function fails on valid input or goes on after a failure").Clause = clause
+		return true
+	})
 }
